@@ -63,6 +63,7 @@ package callbacks
 //@   ensures begins-at-most-once: begins <= old(begins) + 1
 //@   ensures skip-means-no-begin: old(db.Config.SkipDefaultTransaction) ==> begins == old(begins) [C19,C05]
 //@   ensures pending-error-means-no-begin: old(db.Error) != nil ==> begins == old(begins)
+//@   ensures begin-failure-recorded: begins == old(begins) + 1 && beginErrTag != 0 && !(beginErrTag == tagof(gorm.ErrInvalidTransaction) && beginErrBox == boxof(gorm.ErrInvalidTransaction)) ==> db.Error != nil [C05]
 
 //@ func CommitOrRollbackTransaction
 //@   tags C05
